@@ -146,6 +146,10 @@ def obligations(tier, seed):
                 for cut in (19, -1, 5):
                     out.append(ob('C18/step/%s/%s/cut=%d' % (S.STATE_NAMES[state], ev, cut), 'ob_step',
                                   {'state': state, 'ev': ev, 'cut': cut}, covers=['stepped'], cap=120))
+            if ev == 'upd_mp':
+                for kind in ('vpn-withdraw', 'ipv6-unreach', 'unknown-family'):
+                    out.append(ob('C18/step/%s/upd_mp/%s' % (S.STATE_NAMES[state], kind), 'ob_step',
+                                  {'state': state, 'ev': ev, 'cfg': {'mp_kind': kind}}, covers=['stepped'], cap=120))
             if ev == 'open_ok':
                 # the shortest OPEN there is: 29 octets, no optional parameter (a peer without the 4-octet-AS capability)
                 out.append(ob('C18/step/%s/open_ok/no-optional-parameters' % S.STATE_NAMES[state], 'ob_step',
